@@ -2,13 +2,13 @@ CONSTANTS
   OrigAlign = FALSE
   OrigCursor = FALSE
   W = 4
-  Signs = {TRUE, FALSE}
-  WideSame = {TRUE, FALSE}
-  SStarts = {0, 1, 7, 8, 10}
-  SLens = {0, 1, 2, 3, 4, 5, 6}
-  NWs = {1, 2, 3}
-  ChunkSizes = {1, 2, 3}
-  SGrans = {1, 2}
+  Signs = {FALSE}
+  WideSame = {TRUE}
+  SStarts = {10}
+  SLens = {4, 5}
+  NWs = {4}
+  ChunkSizes = {1, 2}
+  SGrans = {1}
   MaxOver = 2
 INIT Init
 NEXT Next
